@@ -44,7 +44,10 @@ type planStep struct {
 	rec     []int
 	msg     string
 	zeroT   bool
-	enabled bool // else (rid == 0): probe Enabled(lv) on h
+	sz      int   // size class of the record's text (sizeTable)
+	calls   []int // AddAttrs calls that build the record (nil: one)
+	shared  int   // > 0: the record is the shared value number shared, handled by several goroutines
+	enabled bool  // else (rid == 0): probe Enabled(lv) on h
 }
 
 type traceEv struct {
@@ -112,9 +115,36 @@ func stress(args []string) error {
 		return h
 	}
 	batchSize := func() int { return []int{0, 1, 1, 2, 2, 3, 1, 5}[rng.IntN(8)] }
-	for id := 2; id <= prebuilt; id++ {
+	// Handlers 2..4 hold one or two attributes: few enough to fit the spare
+	// capacity behind a record's attributes.
+	mk(2, 1, 1)
+	mk(3, 1, 1)
+	mk(4, 1, 2)
+	for id := 5; id <= prebuilt; id++ {
 		mk(id, 1+rng.IntN(id-1), batchSize())
 	}
+	// Record values that several goroutines hand to Handle, concurrently and
+	// without cloning (a fan-out is allowed to do that).  Built by several
+	// AddAttrs calls, so that the slice behind the first five attributes has
+	// spare capacity.
+	const nShared = 6
+	sharedSteps := make([]planStep, nShared)
+	for k := range sharedSteps {
+		rid := ng*nr + k + 1
+		calls := [][]int{{6, 1, 1}, {6, 1, 1, 1, 1}, {5, 1, 1, 1}, {7, 2}, {6, 1, 1}, {8, 1, 1, 1, 1}}[k]
+		m := 0
+		for _, c := range calls {
+			m += c
+		}
+		m = min(m, 9)
+		rec := make([]int, m)
+		for j := range rec {
+			rec[j] = -(rid*10 + j + 1)
+		}
+		sharedSteps[k] = planStep{rid: rid, shared: k + 1, lv: stressLevels[rng.IntN(len(stressLevels))], rec: rec,
+			msg: messages[rng.IntN(len(messages))], zeroT: k%2 == 0, calls: calls}
+	}
+	sharedWant := map[int]map[int]int{} // rid -> handler -> planned Handle calls
 	plans := make([][]planStep, ng)
 	for g := 0; g < ng; g++ {
 		known := make([]int, 0, prebuilt+perG)
@@ -124,6 +154,18 @@ func stress(args []string) error {
 		at := map[int]bool{}
 		for len(at) < perG && len(at) < nr {
 			at[rng.IntN(nr)] = true
+		}
+		// Every goroutine starts with a burst on the shared record values, so
+		// that many Handle calls on the same value overlap right after the
+		// start barrier.
+		for b := 0; b < 2*nShared; b++ {
+			st := sharedSteps[(b+g)%nShared]
+			st.h = 2 + (b+g)%3
+			if sharedWant[st.rid] == nil {
+				sharedWant[st.rid] = map[int]int{}
+			}
+			sharedWant[st.rid][st.h]++
+			plans[g] = append(plans[g], st)
 		}
 		nd := 0
 		for i := 0; i < nr; i++ {
@@ -145,6 +187,18 @@ func stress(args []string) error {
 				}
 				plans[g] = append(plans[g], planStep{enabled: true, h: known[rng.IntN(len(known))], lv: lv})
 			}
+			if rng.IntN(25) == 0 {
+				st := sharedSteps[rng.IntN(nShared)]
+				st.h = 2 + rng.IntN(3)
+				if rng.IntN(3) == 0 {
+					st.h = known[rng.IntN(len(known))]
+				}
+				if sharedWant[st.rid] == nil {
+					sharedWant[st.rid] = map[int]int{}
+				}
+				sharedWant[st.rid][st.h]++
+				plans[g] = append(plans[g], st)
+			}
 			rid := g*nr + i + 1
 			m := []int{1, 1, 2, 3, 7}[rng.IntN(5)]
 			rec := make([]int, m)
@@ -155,8 +209,21 @@ func stress(args []string) error {
 			if rng.IntN(3) == 0 {
 				hh = known[len(known)-1-rng.IntN(min(len(known), perG))] // the most recent ones
 			}
+			// Now and then a record whose text line is large (the pooled buffer
+			// grows and is reused by the next records), rarely a huge one.
+			sz := 0
+			if rng.IntN(40) == 0 {
+				sz = 1 + rng.IntN(5)
+				if rng.IntN(12) == 0 {
+					sz = 6
+				}
+			}
+			var calls []int
+			if m == 7 && rng.IntN(2) == 0 {
+				calls = []int{5, 1, 1}
+			}
 			plans[g] = append(plans[g], planStep{rid: rid, h: hh, lv: stressLevels[rng.IntN(len(stressLevels))], rec: rec,
-				msg: messages[rng.IntN(len(messages))], zeroT: rng.IntN(2) == 0})
+				msg: messages[rng.IntN(len(messages))], zeroT: rng.IntN(2) == 0, sz: sz, calls: calls})
 		}
 		// The ids of this goroutine's handlers must be dense.
 		for nd < perG {
@@ -167,13 +234,17 @@ func stress(args []string) error {
 		}
 	}
 	spec := func(st *planStep) recordSpec {
-		return recordSpec{level: slog.Level(st.lv), msg: st.msg, zeroT: st.zeroT, pc: st.rid%2 == 0,
-			attrs: concretise(st.rec, salt, plainGens)}
+		attrs, msg := enlarge(st.sz, st.rec, concretise(st.rec, salt, plainGens), st.msg)
+		return recordSpec{level: slog.Level(st.lv), msg: msg, zeroT: st.zeroT, pc: st.rid%2 == 0, attrs: attrs, calls: st.calls}
 	}
 
 	// ------------------------------------------------------------ run
 	w := &rawWriter{}
 	root := slogutil.NewJSONHybridHandler(w, opts)
+	sharedVals := make([]slog.Record, nShared)
+	for k := range sharedVals {
+		sharedVals[k] = spec(&sharedSteps[k]).build(nil)
+	}
 	shared := make([]slog.Handler, prebuilt+1)
 	shared[1] = root
 	for id := 2; id <= prebuilt; id++ {
@@ -208,7 +279,13 @@ func stress(args []string) error {
 					enabled[g] = append(enabled[g], enabledRes{st.h, st.lv, get(st.h).Enabled(ctx, slog.Level(st.lv))})
 				default:
 					if pv, panicked := vh.Try(func() {
-						if err := get(st.h).Handle(ctx, spec(st).build(nil)); err != nil {
+						var rec slog.Record
+						if st.shared > 0 {
+							rec = sharedVals[st.shared-1] // a copy of the value, as any caller makes
+						} else {
+							rec = spec(st).build(nil)
+						}
+						if err := get(st.h).Handle(ctx, rec); err != nil {
 							herrs[g] = append(herrs[g], fmt.Sprintf("record %d: %v", st.rid, err))
 						}
 					}); panicked {
@@ -244,7 +321,7 @@ func stress(args []string) error {
 	byRID := map[int]*planStep{}
 	for g := range plans {
 		for i := range plans[g] {
-			if st := &plans[g][i]; st.rid != 0 {
+			if st := &plans[g][i]; st.rid != 0 && st.shared == 0 {
 				byRID[st.rid] = st
 			}
 		}
@@ -270,14 +347,14 @@ func stress(args []string) error {
 		res.Mismatch(base+" torn tail", "the output does not end in a newline", map[string]any{"stage": "T", "tail": string(rest)})
 	}
 	matched := map[int]int{}
-	bad := 0
+	bad, nSharedLines := 0, 0
 	for li, ln := range lines {
 		if li%64 == 63 {
 			tr.Emit(traceEv{Op: "cut", Batch: []int{}, Rec: []int{}, Attrs: []int{}})
 		}
 		report := func(what string, extra map[string]any) {
 			bad++
-			d := map[string]any{"stage": "T", "line_no": li + 1, "line": string(ln)}
+			d := map[string]any{"stage": "T", "line_no": li + 1, "line": clipStr(string(ln))}
 			for k, x := range extra {
 				d[k] = x
 			}
@@ -303,6 +380,39 @@ func stress(args []string) error {
 				rid = -id / 10
 			}
 		}
+		if rid > ng*nr && rid <= ng*nr+nShared && !mixed {
+			// A shared record value: the line must be the one of a planned
+			// (record, handler) pair that still has calls to account for.
+			tmpl := sharedSteps[rid-ng*nr-1]
+			hit := 0
+			hs := make([]int, 0, len(sharedWant[rid]))
+			for h := range sharedWant[rid] {
+				hs = append(hs, h)
+			}
+			sort.Ints(hs)
+			for _, h := range hs {
+				if sharedWant[rid][h] <= 0 {
+					continue
+				}
+				want, rerr := ref.line(spec(&tmpl), concretise(hp[h].acc, salt, plainGens))
+				if rerr != nil {
+					return rerr
+				}
+				if msg == want && sev == severityName(tmpl.lv >= 8) {
+					hit = h
+					break
+				}
+			}
+			if hit == 0 {
+				report(fmt.Sprintf("the line of shared record %d is not the line of any handler it was given to (or there are too many of them)", rid),
+					map[string]any{"record": rid, "record_addattrs_calls": tmpl.calls, "planned_handlers": hs})
+				continue
+			}
+			sharedWant[rid][hit]--
+			nSharedLines++
+			tr.Emit(traceEv{Op: "relog", H: hit, Lv: tmpl.lv, Rec: tmpl.rec, Err: bit(sev == "ERROR"), Attrs: got, Batch: []int{}})
+			continue
+		}
 		st := byRID[rid]
 		if st == nil || mixed {
 			report(fmt.Sprintf("the line carries the attributes of no single record (ids %v)", got), nil)
@@ -319,7 +429,7 @@ func stress(args []string) error {
 				what = fmt.Sprintf("severity %q, want %q", sev, severityName(st.lv >= 8))
 			}
 			report(what, map[string]any{"record": rid, "handler": st.h, "handler_attr_ids": hp[st.h].acc, "level": st.lv,
-				"want_message": want, "want_severity": severityName(st.lv >= 8)})
+				"want_message": clipStr(want), "want_severity": severityName(st.lv >= 8)})
 		}
 		// The abstract content of the line, as observed, goes to the trace.
 		tr.Emit(traceEv{Op: "log", H: st.h, Lv: st.lv, Rec: st.rec, Err: bit(sev == "ERROR"), Attrs: got, Batch: []int{}})
@@ -335,6 +445,15 @@ func stress(args []string) error {
 			res.Mismatch(fmt.Sprintf("%s record %d", base, rid), fmt.Sprintf("the record has %d lines in the output", n), map[string]any{"stage": "T"})
 		}
 	}
+	for rid, m := range sharedWant {
+		for h, n := range m {
+			if n != 0 {
+				missing++
+				res.Mismatch(fmt.Sprintf("%s shared record %d handler %d", base, rid, h),
+					fmt.Sprintf("%d Handle call(s) of the shared record value left no (correct) line", n), map[string]any{"stage": "T"})
+			}
+		}
+	}
 	nen := 0
 	for g := range enabled {
 		for _, e := range enabled[g] {
@@ -348,7 +467,7 @@ func stress(args []string) error {
 		return err
 	}
 	return res.Close(map[string]any{"records": len(byRID), "lines": len(lines), "write_calls": w.writes, "handlers": len(hp),
-		"bad_lines": bad, "missing": missing, "duplicated": dup, "enabled_probes": nen, "events": tr.N,
+		"bad_lines": bad, "shared_record_lines": nSharedLines, "missing": missing, "duplicated": dup, "enabled_probes": nen, "events": tr.N,
 		"distinct_nontrivial": len(byRID)})
 }
 
